@@ -269,10 +269,16 @@ def check_c16(res, ctx):
         b = bytes((r.getrandbits(8) | (0x80 if r.random() < 0.7 else 0)) for _ in range(n))
         hs.append("r7 " + b.hex())
     hs += ["r7 ffffffffff01", "r7 8080808080", "r7 ffffffff7f", "r7 80808080800000", "r7 -", "r7 80"]
+    # the fifth group: its low four bits are the last bits of a 32-bit value, anything above is out of range
+    for g5 in list(range(0, 0x20)) + [0x3f, 0x40, 0x70, 0x7f]:
+        for pre in ("80808080", "ffffffff", "83808080", "85a0c0f0"):
+            hs.append("r7 %s%02x" % (pre, g5))
 
     def oracle_r7(line, h):
         b = bytes.fromhex(line.split()[1]) if line.split()[1] != "-" else b""
         # over-long (continuation on the fifth byte) must be refused
+        if len(b) == 5 and all(x & 0x80 for x in b[:4]) and 0x10 <= b[4] < 0x80 and not h.startswith("r7=-21"):
+            return "a fifth group carrying bits beyond the 32nd was not refused with invalid-size: " + h
         if len(b) >= 5 and all(x & 0x80 for x in b[:5]) and h.startswith("r7=0"):
             return "over-long group sequence %s accepted: %s" % (b.hex(), h)
         return None
@@ -1388,7 +1394,7 @@ def expected_status(f, v):
         return -13
     if k == "bytesize":
         return None      # the full reader ignores the byte-size header; the skip path is judged below
-    if k in ("tmdcount", "elemcount", "slicecols", "len32", "strlen", "rows_bit"):
+    if k in ("tmdcount", "elemcount", "slicecols", "len32", "strlen", "rows_bit", "colcount", "namecount", "propcnt"):
         if k == "slicecols" and v >= 0:
             return -19 if v != f.get("orig") else 0
         return -21 if v < 0 else None
@@ -1441,7 +1447,7 @@ def check_c09(res, ctx):
                     continue
             elif f["len"] == 4:
                 orig = int.from_bytes(data[f["off"]:f["off"] + 4], "little", signed=True)
-                if k in ("tmdcount", "elemcount", "len32", "strlen", "rows_bit", "bytesize"):
+                if k in ("tmdcount", "elemcount", "len32", "strlen", "rows_bit", "bytesize", "colcount", "namecount", "propcnt"):
                     vals = [-1, -2, -160, -2 ** 31]
                 elif k == "slicecols":
                     vals = [-1, -2 ** 31, orig + 1, max(0, orig - 1) if orig else 1, orig + 255]
@@ -1504,7 +1510,7 @@ def check_c09(res, ctx):
         if k2 not in meta:
             skl.append(k2)
             meta[k2] = (f, v, ex if f["kind"] in ("magic0", "magic1", "secid", "tmdcount", "flag_tmd_value", "flag_tmd_dflt",
-                                                    "slicecols", "elemcount", "enc", "tid", "rows_bit") else None)
+                                                    "slicecols", "elemcount", "enc", "tid", "rows_bit", "colcount", "namecount", "propcnt") else None)
     if ctx.tier == "quick" and len(skl) > 6000:
         skl = r.sample(skl, 6000)
     skl += extra_skip if len(extra_skip) <= 2000 else r.sample(extra_skip, 2000)
